@@ -1,0 +1,72 @@
+//go:build verif
+
+package fpgo
+
+// Verification hooks (build tag "verif" only). With the tag off, verifPoint is an
+// empty function (verif_hook_off.go) and nothing in this file exists.
+
+// VerifHook is installed by the verification harness before any library object is created.
+var VerifHook func(point string, obj interface{})
+
+func verifPoint(point string, obj interface{}) {
+	if h := VerifHook; h != nil {
+		h(point, obj)
+	}
+}
+
+// VerifLLQSnapshot is a read-only view of a LinkedListQueue's link structure.
+type VerifLLQSnapshot[T any] struct {
+	Forward   []T // values along Next from first
+	Backward  []T // values along Prev from last
+	Count     int
+	NodeCount int
+	PoolLen   int  // nodes reachable from nodePoolFirst
+	Broken    bool // a nil Val or a cycle was met while walking
+}
+
+// VerifSnapshot walks the list without modifying it (bounded walks; never panics).
+func (q *LinkedListQueue[T]) VerifSnapshot() VerifLLQSnapshot[T] {
+	s := VerifLLQSnapshot[T]{Count: q.count, NodeCount: q.nodeCount}
+	limit := q.count + q.nodeCount + 8
+	if limit < 64 {
+		limit = 64
+	}
+	n := 0
+	for node := q.first; node != nil; node = node.Next {
+		if n++; n > limit || node.Val == nil {
+			s.Broken = true
+			break
+		}
+		s.Forward = append(s.Forward, *node.Val)
+	}
+	n = 0
+	for node := q.last; node != nil; node = node.Prev {
+		if n++; n > limit || node.Val == nil {
+			s.Broken = true
+			break
+		}
+		s.Backward = append(s.Backward, *node.Val)
+	}
+	n = 0
+	for node := q.nodePoolFirst; node != nil; node = node.Next {
+		if n++; n > limit {
+			s.Broken = true
+			break
+		}
+		s.PoolLen++
+	}
+	return s
+}
+
+// VerifSnapshotLocked returns len(channel) and the overflow pool's values; the caller
+// must already hold q.lock (it is meant for hooks that fire inside a critical section).
+func (q *BufferedChannelQueue[T]) VerifSnapshotLocked() (int, []T) {
+	return len(q.blockingQueue), q.pool.VerifSnapshot().Forward
+}
+
+// VerifSnapshot is VerifSnapshotLocked under the read lock (for use between steps).
+func (q *BufferedChannelQueue[T]) VerifSnapshot() (int, []T) {
+	q.lock.RLock()
+	defer q.lock.RUnlock()
+	return q.VerifSnapshotLocked()
+}
